@@ -5,6 +5,7 @@
     The external engines (RegexpQuery's regexp/syntax, grafana regexp.Compile, language lookup,
     Regexp.setCase(auto)) are universally quantified. *)
 From ZV Require Import Lib.Base Model.Query Generated.ParserTables Model.Parser Proofs.ParserTotal Proofs.ParserKinds Proofs.ParserFuel Model.JsonApi Proofs.JsonApiTotal Proofs.C07Main.
+From ZV Require Import Generated.MatchCost Model.MatchCostEval Proofs.MatchCostEval.
 From Coq Require Import String.
 Open Scope N_scope.
 
@@ -56,6 +57,31 @@ Theorem C07_parsed_searchable_kinds_partial :
     parse rq rx_auto rcompile lang s = Ok q -> mt_kinds q = Ok tt.
 Proof. exact parsed_dispatchable. Qed.
 Print Assumptions C07_parsed_searchable_kinds_partial.
+
+(** Search beyond the kind dispatch: the cost-level loop of indexData.Search
+      for cost := costMin; cost <= costMax; cost++ { switch evalMatchTree(..., cost, ..., mt) {
+        case matchesRequiresHigherCost: if cost == costMax { log.Panicf("did not decide ...") } ... } }
+    never reaches its log.Panicf, for EVERY match tree (any nesting of and / andLine / or / not / fileName / boost /
+    noVisit nodes over any leaves) and every document: [levels] is the tree annotated with each node's state at
+    the successive cost levels; [obs_ok] asks that composite nodes combine their children's states as
+    and/or/notMatchTree.matches do (Model/MatchCostEval.v, tied by mc_mismatches to recorded runs of the real
+    trees) and that a LEAF answers matchesRequiresHigherCost only where one of its `cost < X` guards holds - the
+    guard constants of every matches method, the cost constants and the loop bounds are generated from the
+    source (Generated/MatchCost.v).  Still not modelled: candidate iteration (nextDoc/prepare), match gathering
+    and ranking - only exercised by the oracle under recover(). *)
+Theorem C07_search_loop_always_decides :
+  forall levels : list (N * obs),
+    Forall (fun p => obs_ok (fst p) (snd p) = true) levels -> nopanic (cost_loop levels).
+Proof. exact search_loop_always_decides. Qed.
+Print Assumptions C07_search_loop_always_decides.
+
+(** the generated tables meet what the hand-written combinators assume: exactly the node kinds whose matches
+    method calls evalMatchTree are modelled as combinators (a new composite kind breaks this), no leaf defers
+    outside a `cost < X` guard, no X exceeds costMax, and the loop panics only at its last level *)
+Theorem C07_match_cost_tables_ok :
+  kinds_ok = true /\ thresholds_ok = true /\ forall k, may_defer k loop_panic_at = false.
+Proof. exact (conj generated_kinds_ok (conj generated_thresholds_ok no_defer_at_panic_level)). Qed.
+Print Assumptions C07_match_cost_tables_ok.
 
 (** PARTIAL for the JSON API: the control flow of jsonSearch / jsonList (Model/JsonApi.v: method check,
     decode error, missing Q, nil Opts / RepoIDs guards, Parse, CalculateDefaultSearchLimits' pre-flight and
@@ -120,3 +146,14 @@ Example ex_json : json_search (fun _ => Ok (QConst true)) (fun _ _ => Ok 0) true
   json_list (fun _ => Ok (QConst true)) (fun _ => Err 1) true (Some {| la_q := [] |}) = Ok 500 /\
   json_list (fun _ => Ok (QConst true)) (fun _ => Panic 11) true (Some {| la_q := [] |}) = Panic 11.
 Proof. repeat split; reflexivity. Qed.
+
+(** the cost loop: a content regexp under a negation is undecided until costRegexp and decided there; a tree
+    whose leaf still deferred at costMax would be rejected by obs_ok (and would make the loop panic) *)
+Definition ex_not_re (c : N) (s : mstate) : N * obs :=
+  (c, ONode MT_notMatchTree (not_state s) [ONode MT_andMatchTree s [ONode MT_regexpMatchTree s []; ONode MT_noVisitMatchTree SFound [ONode MT_bruteForceMatchTree SFound []]]]).
+Example ex_cost_loop :
+  let levels := [ex_not_re 0 SHigher; ex_not_re 1 SHigher; ex_not_re 2 SHigher; ex_not_re 3 SNone] in
+  forallb (fun p => obs_ok (fst p) (snd p)) levels = true /\ cost_loop levels = Ok true /\
+  obs_ok 3 (snd (ex_not_re 3 SHigher)) = false /\ cost_loop [ex_not_re 3 SHigher] = Panic 12 /\
+  obs_ok 2 (ONode MT_substrMatchTree SHigher []) = false /\ obs_ok 1 (ONode MT_substrMatchTree SHigher []) = true.
+Proof. repeat split; vm_compute; reflexivity. Qed.
